@@ -1003,6 +1003,9 @@ void ReaderMgr::reset()
     // Reset all of the flags
     fThrowEOE = false;
 
+    // The next document starts out as XML 1.0 again
+    fXMLVersion = XMLReader::XMLV1_0;
+
     // Delete the current reader and flush the reader stack
     delete fCurReaderData;
     fCurReaderData = 0;
